@@ -71,7 +71,7 @@ func c55Ops(thorough bool) []vsched.Op {
 			{[]string{"foo,bar"}, "ba"},
 		}),
 		c55Tokens([]c55Contains{
-			{[]string{"Keep-alive"}, "keep-alive"},
+			{[]string{"\u212aeep-alive"}, "keep-alive"},
 			{[]string{",, ,"}, "x"},
 			{nil, "x"},
 			{[]string{"a", "b,c ,  D\t"}, "d"},
@@ -111,11 +111,11 @@ func c55Ops(thorough bool) []vsched.Op {
 	if thorough {
 		ops = append(ops,
 			c55Strs("ValidHeaderFieldName", ValidHeaderFieldName, real.ValidHeaderFieldName,
-				[]string{"ſ", "K", "aé", "A,B", "a/b", "{", "[", "@"}),
+				[]string{"\u017f", "\u212a", "a\u00e9", "A,B", "a/b", "{", "[", "@"}),
 			c55Tokens([]c55Contains{
 				{[]string{"\u017f"}, "s"},
 				{[]string{"S"}, "\u017f"},
-				{[]string{"\u212aeep-alive"}, "keep-alive"},
+				{[]string{"KEEP-alive"}, "keep-Alive"},
 				{[]string{" \t close \t"}, "CLOSE"},
 				{[]string{"close\n"}, "close"},
 			}),
